@@ -114,6 +114,38 @@ def compile_sweep(chk, w2c2, quick):
     chk.observe('compile_sweep_compilations', total, 'set')
 
 
+def nesting_probe(chk, w2c2):
+    """Separately keyed probe: structured nesting deeper than C compilers' default bracket-depth limits (clang: 256). WebAssembly allows
+    any nesting (an LLVM switch with n dense cases is n nested blocks); the emitted C nests one compound statement per loop/if
+    (and per block with -p). Depth 200 must compile everywhere; depth 300 is reported per (construct, mode, compiler)."""
+    from vlib import hostile
+    d0 = env.subdir('c11-nest')
+    jobs = [(kind, depth, tuple(opts)) for kind in ('block', 'loop', 'if') for depth in (200, 300) for opts in ([], ['-p'])]
+
+    def one(job):
+        kind, depth, opts = job
+        b = hostile.deep_nesting(depth, kind).encode()
+        d = os.path.join(d0, '%s%d%s' % (kind, depth, 'p' if opts else ''))
+        t = e2e.translate(w2c2, b, d, 'm', list(opts))
+        res = []
+        if t.rc != 0:
+            res.append(('C11:nesting:translate', 'translator rejected %d nested %ss: %s' % (depth, kind, t.err[-200:])))
+            return job, b, res
+        for cc in ('gcc', 'clang'):
+            r = env.run([cc, '-fsyntax-only', '-w', '-I', e2e.base_include(), '-I', d, os.path.join(d, 'm.c')], timeout=600)
+            if r.rc != 0:
+                res.append((('C11:nesting-limit:%s:%s:%s' if depth > 256 else 'C11:nesting-below-limit-fails:%s:%s:%s') % (kind, 'pretty' if opts else 'default', cc),
+                            '%d nested %ss translated with options "%s" do not compile with %s: %s' % (depth, kind, ' '.join(opts), cc, r.err.strip().splitlines()[0][-160:] if r.err.strip() else '')))
+        shutil.rmtree(d, ignore_errors=True)
+        return job, b, res
+
+    for job, b, res in env.pmap(one, jobs):
+        chk.ev(2)
+        chk.distinct(('nesting',) + job)
+        for key, what in res:
+            chk.violation(key, what, {'module.wasm': b})
+
+
 def main(chk):
     quick = chk.tier == 'quick'
     w2c2 = env.build_translator('plain')
@@ -241,6 +273,7 @@ def main(chk):
         if ii < 2:
             chk.sample({'module': tag, 'builds': sorted(outs), 'calls': ncalls})
     compile_sweep(chk, w2c2, quick)
+    nesting_probe(chk, w2c2)
     for k, v in skipped.items():
         chk.observe('skipped_' + k, v, 'set')
     chk.observe('builds', [b_[0] for b_ in builds], 'set')
